@@ -212,7 +212,7 @@ func c18Run(c *fw.Ctx) {
 	}
 	outcomes := []string{"proxied-200", "upstream-500", "backend-down-502", "backend-stalled", "skip-auth-proxied", "sign-in-302", "xhr-401", "forbidden-403", "token-revoked-401", "internal-500",
 		"auth-only-202", "auth-only-401", "callback-error-param", "callback-missing-code", "callback-success", "sign-out", "robots", "certs", "path-cleaning-301", "favicon-404"}
-	protos := []string{"", "http", "https"}
+	protos := []string{"", "http", "https", "http, https", "https, http", "HTTPS"}
 	future, past := harness.At(time.Hour), harness.At(-time.Minute)
 
 	mon.source = "dedicated-product"
@@ -349,6 +349,32 @@ func c18Run(c *fw.Ctx) {
 		}
 	})
 
+	// ---- authenticator: non-canonical spellings of its endpoints (answered by the router itself) ----
+	mon.source = "authenticator-paths"
+	aenvs := &authEnvCache{}
+	defer aenvs.close()
+	ae := aenvs.get("c18", harness.AuthOpts{EmailDomains: []string{"corp.test"}, RootDomains: []string{"sso.test"}})
+	healthyIdP(ae, "bob@corp.test")
+	// canonical spellings only: a non-canonical path (double slash, dot segments) is answered with a
+	// path-cleaning 301 by the outer router of NewAuthenticatorMux before any endpoint is reached, which
+	// is not a response "from" one of the endpoints the statement names
+	apaths := []string{"/sign_in", "/sign_out", "/start", "/callback", "/redeem", "/refresh", "/profile", "/validate"}
+	amethods := []string{"GET", "POST", "PUT"}
+	drive(c, "authenticator-paths", -1, func(x *explore.Exec, owned bool) {
+		mon.choices = x.Choices
+		pth := apaths[x.Choose("path", len(apaths))]
+		m := amethods[x.Choose("method", len(amethods))]
+		if owned {
+			mon.res = c.Res
+		} else {
+			mon.res = fw.NewResult()
+		}
+		r := ae.Do(harness.NewRequest(m, "/"+ae.Slug+pth+"?client_id="+harness.ClientID, harness.AuthHost, nil, nil))
+		if owned {
+			c.Res.Outcome(fmt.Sprintf("auth|%s|%s|%d", pth, m, r.Status))
+		}
+	})
+
 	// ---- re-drive the other harnesses under the monitor ---------------------------------------
 	if c.Replay != nil {
 		return
@@ -384,7 +410,7 @@ func init() {
 		ID:    "C18",
 		Level: "exploration",
 		Rule: "a response monitor is the only oracle. (a) dedicated product on the real proxy: outcome {proxied 200, upstream 500, backend down -> 502, backend stalled -> timeout page (the backend blocks until the harness releases it), skip-auth proxied, sign-in 302, XHR 401, 403 page, token-revoked 401 page, 500 page, /oauth2/auth 202 and 401, callback with error / without code / successful (sets session, clears CSRF), sign-out, robots, certs, path-cleaning 301, favicon 404} " +
-			"x upstream response headers {none, X-Frame-Options, empty nosniff, X-XSS-Protection 0, duplicated, lower-case names, HSTS max-age=0, duplicated HSTS} x header_overrides {none, X-Frame-Options: DENY} x secure cookies {off, on} x X-Forwarded-Proto {none, http, https} x cookie domain {unset, set}; " +
+			"x upstream response headers {none, X-Frame-Options, empty nosniff, X-XSS-Protection 0, duplicated, lower-case names, HSTS max-age=0, duplicated HSTS} x header_overrides {none, X-Frame-Options: DENY} x secure cookies {off, on} x X-Forwarded-Proto {none, http, https, 'http, https', 'https, http', HTTPS} x cookie domain {unset, set}; (a') each authenticator endpoint x {GET, POST, PUT} without parameters (405 and error pages); " +
 			"(b) every response produced while the quick alphabets of the C06, C13 (proxy) and C08, C09 (authenticator) harnesses are re-driven (thorough: also C01 and C07). " +
 			"Monitor: the three proxy headers exactly once with the proxy's or the override's value; with secure cookies exactly the proxy's HSTS and a 301 to https://<same host><same decoded path>?<same query> for plain HTTP; session/CSRF Set-Cookie with the configured Secure, HttpOnly, Path=/ and Domain = request host without port or the configured domain; the authenticator's six-header set on its sign-in, sign-out, OAuth and token endpoints; " +
 			"distinct_nontrivial = distinct (configuration, outcome, proto, upstream headers, status) of the dedicated product",
